@@ -64,6 +64,74 @@ def gen_sequences(ctx, impl, n_seq, max_len, oor_fraction=0.0, per_class_boundar
     return cases
 
 
+def gen_histories(ctx, impl, n):
+    """Histories of ONE Subroutine object: serialize, mutate in place, serialize again
+    (a cached header / cached command bytes / a buffer sized per list entry would show here)."""
+    rng = ctx.rng
+    out = []
+    for fname in FLAVS:
+        rows = impl.t["flavours"][fname]["rows"]
+        for _ in range(n):
+            k = rng.randint(1, 6)
+            body = [ci.gen_in_range_instr(rng, rng.choice(rows)) for _ in range(k)]
+            app = rng.choice([0, 1, 255, 256, 65535, rng.randint(0, 65535)])
+            muts = []
+            for _ in range(rng.randint(1, 3)):
+                kind = rng.choice(["app_setter", "instantiate", "replace", "setop", "append", "debug", "debug"])
+                if kind in ("app_setter", "instantiate"):
+                    muts.append((kind, rng.choice([0, 1, 65535, rng.randint(0, 65535)])))
+                elif kind == "replace":
+                    muts.append((kind, rng.randint(0, 5), ci.gen_in_range_instr(rng, rng.choice(rows))))
+                elif kind == "setop":
+                    muts.append((kind, rng.randint(0, 7), rng.randint(0, 2 ** 30)))
+                elif kind == "append":
+                    muts.append((kind, ci.gen_in_range_instr(rng, rng.choice(rows))))
+                else:
+                    muts.append((kind, rng.randint(0, 8), rng.choice(["begin SWAP", "end SWAP", "x"])))
+            if any(m[0] == "debug" for m in muts):
+                # Subroutine.instantiate() maps a DebugInstruction through from_operands(), which returns
+                # None (observed; outside C01/C02: debug pseudo-instructions are not flavour instructions)
+                muts = [("app_setter", m[1]) if m[0] == "instantiate" else m for m in muts]
+            out.append((fname, 1, 0, app, body, muts))
+    return out
+
+
+def run_histories(ctx, impl, hists, reference=None):
+    """Oracle on object histories.  Returns extra (flavour, v0, v1, app, body, tag) cases (the final
+    contents) so that they also go through the model correspondence."""
+    extra = []
+    for (fname, v0, v1, app, body, muts) in hists:
+        try:
+            r = impl.run_history(fname, v0, v1, app, body, muts)
+        except KeyError:
+            continue  # a setop on a replaced instruction of another class: not a meaningful history
+        ctx.note_case(("history", fname, app, str(body), str(muts)))
+        ctx.coverage.setdefault("stream_distribution_histories", {})
+        d = ctx.coverage["stream_distribution_histories"]
+        for m in muts:
+            d[m[0]] = d.get(m[0], 0) + 1
+        if r["bytes_obj"] is None:
+            ctx.violation("a mutated Subroutine object could not be serialized although its content is in range",
+                          dict(flavour=fname, version=[v0, v1], app_id=app, body=body, mutations=muts, err=r["err"]))
+            continue
+        want_dec = (v0, v1, r["final_app"], [(n, list(lv)) for n, lv in r["final_body"]])
+        got_dec = None if r["dec"] is None else (r["dec"][0], r["dec"][1], r["dec"][2], [(n, list(lv)) for n, lv in r["dec"][3]])
+        if r["bytes_obj"] != r["bytes_fresh"] or got_dec != want_dec:
+            ctx.violation("after in-place changes the bytes of a Subroutine object are not those of its current content "
+                          "(serialize -> mutate -> serialize)",
+                          dict(flavour=fname, version=[v0, v1], app_id=app, body=body, mutations=muts,
+                               final_body=r["final_body"], final_app=r["final_app"], bytes_of_object=r["bytes_obj"],
+                               bytes_of_fresh_object=r["bytes_fresh"], decoded=r["dec"]))
+        if reference is not None:
+            want = reference(fname, v0, v1, r["final_app"], r["final_body"])
+            if want is not None and want != r["bytes_obj"]:
+                ctx.violation("bytes(Subroutine) differ from the reference encoding (object history)",
+                              dict(flavour=fname, version=[v0, v1], app_id=r["final_app"], body=r["final_body"],
+                                   mutations=muts, got=r["bytes_obj"], reference=want))
+        extra.append((fname, v0, v1, r["final_app"], r["final_body"], "history-final"))
+    return extra
+
+
 def gen_dcases(ctx, impl, n):
     rng = ctx.rng
     out = []
